@@ -11,7 +11,9 @@
    objects, each with its defaultdict(list) keyed by source), machine-level lists and
    options, models.  Automatic `to_<state>` events are NOT stored: they are implied by
    [m_auto] and omitted from the markup by the code's heuristic (validated by the
-   correspondence check inside the envelope, see wf_machine).  State paths of model
+   correspondence check inside the envelope, see wf_machine) - except for flat machines
+   with a custom model_attribute, whose automatic events `to_<attr>_<state>` escape the
+   heuristic: there ([exports_auto]) add_states stores them like the code does.  State paths of model
    states are lists of names; the IO layer joins them with the separator "_". *)
 From Coq Require Import List Arith Bool String Ascii.
 From G Require Import AttrLists.
@@ -210,6 +212,27 @@ Definition to_markup (m : machine) : markup :=
            (truthy_init (m_initial m)) (conv_name m)
            (conv_transitions m) (conv_states m).
 
+(* ------------------------------------------------------------------ automatic events *)
+(* core.Machine.add_states names the automatic events to_<attr>_<state> when
+   model_attribute <> 'state'; _is_auto_transition does not recognise them, so they are
+   exported.  Only in that mode they are kept in the event table. *)
+Definition exports_auto (hsm auto : bool) (attr : string) : bool :=
+  negb hsm && auto && negb (attr =? "state").
+Definition auto_name (attr x : string) : string := ("to_" ++ attr ++ "_" ++ x)%string.
+Definition auto_trans (s d : string) : trans := mkTrans s (Some d) [] [] [] [] [].
+(* the loop of add_states after registering the new state [n] ([olds]: names before it) *)
+Definition auto_add (attr : string) (olds : list string) (n : string) (evs : events) : events :=
+  fold_left (fun acc a =>
+               if a =? n then
+                 fold_left (fun acc' s => ins_ev (auto_name attr n) (auto_trans s n) acc') (olds ++ [n]) acc
+               else ins_ev (auto_name attr a) (auto_trans n a) acc)
+            (olds ++ [n]) evs.
+Fixpoint auto_add_all (attr : string) (olds news : list string) (evs : events) : events :=
+  match news with
+  | [] => evs
+  | n :: r => auto_add_all attr (olds ++ [n]) r (auto_add attr olds n evs)
+  end.
+
 (* ------------------------------------------------------------------ of_markup *)
 Definition of_ktrans (k : ktrans) : string * trans :=
   (kt_trigger k,
@@ -284,7 +307,9 @@ Definition of_markup (hsm : bool) (k : markup) : machine :=
                        else sts0 ++ [default_initial_state (k_ignore k)]
              | Some _ => sts0 end in
   let ini := match k_initial k with None => Some (inl "initial") | i => i end in
-  mkMachine hsm sts (build_events (k_transitions k)) ini
+  let evs0 := if exports_auto hsm (k_auto k) (k_attr k)
+              then auto_add_all (k_attr k) [] (map s_name sts) [] else [] in
+  mkMachine hsm sts (add_all (map of_ktrans (k_transitions k)) evs0) ini
             (match k_name k with Some n => n | None => "" end)
             (k_bsc k) (k_asc k) (k_pe k) (k_fe k) (k_oe k) (k_of k)
             (k_send k) (k_auto k) (k_attr k) (k_override k) (k_ignore k) (k_queued k)
@@ -303,7 +328,7 @@ Inductive op :=
 | ORegEvent (kind : nat) (trg : string) (cb : string)         (* machine.before_<trigger>(cb) / after_ / prepare_ *)
 | OSetModel (i : nat) (st : mstate)                      (* a model moved to another state *)
 | OAddModel (cls : string) (st : mstate)                 (* add_model(cls(), initial=st) *)
-| ODirectState (kind : nat) (path : list string) (cb : string)  (* HSM machine.on_enter(state, cb): no invalidation *)
+| ODirectState (kind : nat) (path : list string) (cb : string)  (* HSM machine.on_enter(state, cb) / on_exit(state, cb) *)
 | OSetList (which : nat) (l : list string).              (* machine.<list> = l after construction *)
 
 (* apply [f] to the scope (states, events) reached by [p] *)
@@ -396,7 +421,10 @@ Definition apply_op (o : op) (m : machine) : machine :=
   | OGet => m
   | OAddState sc k =>
       let r := upd_at sc (fun x => (fst x ++ [of_kstate (m_ignore m) k], snd x)) (m_states m, m_events m) in
-      set_body m (fst r) (snd r) (m_models m)
+      set_body m (fst r)
+               (if exports_auto (m_hsm m) (m_auto m) (m_attr m)
+                then auto_add (m_attr m) (map s_name (m_states m)) (ks_name k) (snd r) else snd r)
+               (m_models m)
   | OAddTrans sc trg src dst c u p b a =>
       let r := upd_at sc (add_transition_sc trg src dst c u p b a) (m_states m, m_events m) in
       set_body m (fst r) (snd r) (m_models m)
@@ -420,13 +448,14 @@ Definition apply_op (o : op) (m : machine) : machine :=
 (* does the operation set _needs_update? *)
 Definition invalidates (o : op) : bool :=
   match o with
-  | OAddState _ _ | OAddTrans _ _ _ _ _ _ _ _ _ | ORemTrans _ _ _ | ORegState _ _ _ | ORegEvent _ _ _ => true
+  | OAddState _ _ | OAddTrans _ _ _ _ _ _ _ _ _ | ORemTrans _ _ _ | ORegState _ _ _ | ORegEvent _ _ _
+  | ODirectState _ _ _ => true
   | _ => false
   end.
 (* operations the property speaks about (states, transitions, callbacks added or removed
    through the machine's API; models moving) *)
 Definition op_in_envelope (o : op) : bool :=
-  match o with ODirectState _ _ _ | OSetList _ _ => false | _ => true end.
+  match o with OSetList _ _ => false | _ => true end.
 
 (* ------------------------------------------------------------------ the cache automaton *)
 Record mm := mkMM { mach : machine; cache : markup; dirty : bool }.
